@@ -199,7 +199,15 @@ impl IceConn {
     /// When set, RTP latching uses SSRC match instead of source-address
     /// mismatch, allowing latch to succeed even when NAT changes the port.
     pub fn set_expected_ssrc(&self, ssrc: u32) {
-        self.expected_ssrc.store(ssrc, Ordering::Relaxed);
+        let previous = self.expected_ssrc.swap(ssrc, Ordering::Relaxed);
+        if previous != ssrc {
+            // Candidates observed under another expectation (or none) have not sent RTP
+            // carrying the SSRC now expected: restart the probation window.
+            if let Some(p) = self.probation.lock().as_mut() {
+                p.candidates.clear();
+                p.total_packets = 0;
+            }
+        }
     }
 
     pub fn set_remote_rtcp_addr(&self, addr: Option<SocketAddr>) {
